@@ -28,7 +28,8 @@ package pipeline
 //@     pure
 
 // In refuses a record (returns EventSeqIDError == 0) only for one of the reasons
-// the property lists: empty/oversize (checkInputBytes), undecodable (err), already
+// the property lists: empty/oversize (checkInputBytes), undecodable (g_undec: the
+// error of the decoder itself, not whatever the shared err variable holds), already
 // committed (stream offset), antispam, or the input's PassEvent (streamEvent == 0).
 
 //@ func (*Pipeline).In
@@ -39,7 +40,15 @@ package pipeline
 //@   requires p.settings.MaxEventSize >= 0
 //@   requires 2 <= p.decoderType && p.decoderType <= 10
 //@   ensures held == 0
-//@   ensures result == 0 ==> !ok || err != nil || (g_so > 0 && offsets.current < g_so) || g_spam || g_pass0
+//@   ghost g_undec bool = false
+//@   ensures result == 0 ==> !ok || g_undec || (g_so > 0 && offsets.current < g_so) || g_spam || g_pass0
+//@   callee DecodeCRI(b) (row, e)
+//@     pure
+//@     set g_undec := e != nil
+//@   callee DecodeToJson(root, b) (e)
+//@     set g_undec := e != nil
+//@   callee DecodePostgresToJson(root, b) (e)
+//@     set g_undec := e != nil
 //@   callee ByStream(stream) (r)
 //@     pure
 //@     set g_so := r
@@ -796,3 +805,13 @@ package pipeline
 //@   callee Signal()
 //@     pure
 //@     set nsig := nsig + 1
+
+// ---------------------------------------------------------------------------
+// C05 / C19: an event going back to the pool forgets what it was: next use starts
+// as a regular event at action 0 with an empty buffer and no stream (a pooled
+// object that kept the split-parent kind would be skipped by Batch.ForEach and
+// committed without ever being sent).
+
+//@ func (*Event).reset
+//@   modifies e.Buf, e.next, e.action, e.stream, e.children, e.kind
+//@   ensures e.kind == EventKindRegular && e.action == 0 && len(e.Buf) == 0 && e.next == nil && e.stream == nil && len(e.children) == 0
